@@ -563,13 +563,20 @@ static void gen_index_focus(void) {
 }
 
 static void gen_wrap(void) {
-  /* totalwidth wraps to 0 (or to a smaller value) modulo 2^64: only with VERIF_INCLUDE_SYN_WRAP=1 */
+  /* the number of objects does not fit an unsigned long (former F67: division by zero): rejected */
   goff = 0; gbuf[0] = 0;
-  ap("Group:65536 Package:65536 Die:65536 Core:65536(indexes=%s) PU:1", rng_chance(50) ? "Core" : "Die:Core");
+  if (rng_chance(50)) ap("Group:65536 Package:65536 Die:65536 Core:65536(indexes=%s) PU:%u", rng_chance(50) ? "Core" : "Die:Core", 1 + rng_below(3));
+  else ap("Package:2147483648 Die:%s Core:%u(indexes=Core) PU:1", rng_chance(50) ? "2147483648" : "4294967295", 2 + rng_below(7));
+}
+static void gen_nbs(void) {
+  /* OPEN DEFECT: the product of the x*y counts is 0 modulo 2^64: assert(nbs) aborts; only with VERIF_INCLUDE_SYN_NBS=1 */
+  goff = 0; gbuf[0] = 0;
+  ap("PU:%u(indexes=1*65536:1*65536:1*65536:1*65536)", 1 + rng_below(8));
 }
 static void gen_string(void) {
   unsigned m = rng_below(100);
-  if (env_on("VERIF_INCLUDE_SYN_WRAP") && rng_chance(3)) { gen_wrap(); return; }
+  if (rng_chance(1)) { gen_wrap(); return; }
+  if (env_on("VERIF_INCLUDE_SYN_NBS") && rng_chance(3)) { gen_nbs(); return; }
   if (m < 38) gen_typed();
   else if (m < 46) gen_untyped();
   else if (m < 52) gen_deep();
